@@ -46,3 +46,56 @@ CHECKS["C03"] = dict(
     design_ref="DESIGN.md 9/C03, 7.3",
     level_text="Exhaustive within bounds on the real implementation; exactly-once is checked per object on every execution.",
 )
+
+ENUM_ASSUMPTIONS = ["64-bit input spaces are enumerated over the structured sub-spaces named per case (coverage.bounds / per-case 'space'), not all 2^64 words"]
+ENUM_TECH = "model checking family: exhaustive enumeration of the finite input space of the real functions against definitional references"
+ENUM_NOTE = "Trusts the bit-loop reference definitions in /verif/enum and gcc; 64-bit spaces are structured sub-spaces as listed in the evidence file."
+
+CHECKS["C25"] = dict(
+    title="bit helpers correct for every input",
+    engine="enum", level="exploration", technique=ENUM_TECH, level_note=ENUM_NOTE,
+    units=[dict(name="enum_c25", src="enum/enum_c25.cpp", kind="plain"),
+           dict(name="enum_c25_asan", src="enum/enum_c25.cpp", kind="plain", asan=True, args=["--filter", "splitter"])],
+    rule="each case enumerates its whole stated input space (all 2^32 words per 32-bit routine incl. the portable fall-backs; structured 64-bit set; "
+         "every cut-width sequence per splitter); an input is non-trivial when the function does not map it to itself / the sequence has >= 2 cuts; counts are per case, summed",
+    explanation="exhaustive enumeration of the real bit_reversal/bitop/int_algo/split_bitstring functions against bit-loop definitions; splitter cases re-run under AddressSanitizer "
+                "with the source in an exactly-sized heap object so that a read past the end is reported",
+    design_ref="DESIGN.md 6, 9/C25",
+    level_text="Complete enumeration of every 32-bit input space and of the stated structured 64-bit spaces on the real functions: a coverage statement, not a sample.",
+    assumptions=ENUM_ASSUMPTIONS,
+    deadline=dict(quick=400, thorough=1500),
+)
+CHECKS["C26"] = dict(
+    title="heap slot counter",
+    engine="enum", level="exploration", technique=ENUM_TECH, level_note=ENUM_NOTE,
+    units=[dict(name="enum_c26", src="enum/enum_c26.cpp", kind="plain")],
+    rule="n = 1..2^20 (2^24 thorough) increments checked incrementally with a bitmap; every inc/dec word of length <= 26 (30) that never underflows; "
+         "inc/dec round trip at every n; non-trivial = words/steps containing a dec",
+    explanation="exhaustive enumeration on the real bit_reverse_counter (size_t and uint32_t). The literal 'permutation of 1..n for every n' fails by design at n=5 "
+                "(known finding F6); everything that statement implies and that holds is checked as a hard requirement",
+    design_ref="DESIGN.md 9/C26, 10/F6",
+    level_text="Complete enumeration of the stated count ranges and of all Dyck-like words up to the stated length on the real counter.",
+    assumptions=ENUM_ASSUMPTIONS,
+)
+CHECKS["C27"] = dict(
+    title="split-order encoding",
+    engine="enum", level="exploration", technique=ENUM_TECH, level_note=ENUM_NOTE,
+    units=[dict(name="enum_c27", src="enum/enum_c27.cpp", kind="lib")],
+    rule="for each bit-reversal algorithm and each SMR copy of the split list: table sizes 2^0..2^16 (2^20 thorough) x all 2^20 low hash bits x 12 high-bit patterns with the "
+         "successor bucket found among the real dummy hashes; larger tables x the structured 64-bit set; parent buckets; non-trivial = the bucket has a successor in split order",
+    explanation="exhaustive enumeration over the real split_list::regular_hash/dummy_hash and SplitListSet::bucket_no/parent_bucket (HP, RCU, nogc) with m_nBucketCountLog2 set directly",
+    design_ref="DESIGN.md 9/C27",
+    level_text="Complete enumeration of the stated hash/table-size spaces on the real functions.",
+    assumptions=ENUM_ASSUMPTIONS,
+)
+CHECKS["C28"] = dict(
+    title="Feldman addressing",
+    engine="enum", level="exploration", technique=ENUM_TECH, level_note=ENUM_NOTE,
+    units=[dict(name="enum_c28", src="enum/enum_c28.cpp", kind="lib")],
+    rule="metrics::make for hash sizes 1..20 bytes x head 0..hash_bits+2 x array 0..18; path injectivity over all 1- and 2-byte hashes for every accepted configuration; "
+         "one-bit-difference pairs for 4/8-byte hashes; real inserts of all 1-/2-byte hashes and prefix-sharing 4/8-byte hash sets; non-trivial = normalisation changed the request / divergence below the head level",
+    explanation="exhaustive enumeration of the real feldman_hashset metrics + the splitter the container selects, plus sequential inserts into the real FeldmanHashSet<HP>",
+    design_ref="DESIGN.md 9/C28",
+    level_text="Complete enumeration of the configuration space and of all short hashes; wide hashes over the stated prefix-sharing families.",
+    assumptions=ENUM_ASSUMPTIONS,
+)
